@@ -1,5 +1,6 @@
 import Hub.Lemmas.Authz
 import Hub.Lemmas.Admission
+import Hub.Props.C07
 /-
 C08 — Admission rules: only valid market actions are accepted.
 
@@ -446,5 +447,228 @@ theorem subCancel_complete (s : State) (hk : KeysOK s) (frm : TextAddr) (id : Na
   apply accept_of_handle hv
   simp only [Msg.handle, subCancel, hs', orReject_some, ok_bind, hd1, hd2, require_true, hhook]
   exact ⟨s2, h2⟩
+
+/-! ### registrations (with the deposit paid into the community pool) -/
+
+theorem intOverflows_false_of {x : Int} (h0 : 0 ≤ x)
+    (h : x < 115792089237316195423570985008687907853269984665640564039457584007913129639936) : intOverflows x = false := by
+  unfold intOverflows
+  simp only [decide_eq_false_iff_not, ge_iff_le, Nat.not_le]
+  omega
+
+/-- A transfer succeeds when the sender can pay and the receiver's balance stays inside 256 bits. -/
+theorem sendCoins_ok_of {s : State} {f t : Addr} {c : Coin} (hbal : c.amount ≤ balance s f c.denom) (hft : f ≠ t)
+    (h0 : 0 ≤ balance s t c.denom + c.amount)
+    (hlt : balance s t c.denom + c.amount < 115792089237316195423570985008687907853269984665640564039457584007913129639936) :
+    ∃ s', sendCoins s f t c = .ok s' := by
+  unfold sendCoins
+  have h1 : (!decide (balance s f c.denom < c.amount)) = true := by simp; omega
+  have h2 : balance (setBalance s f c.denom (balance s f c.denom - c.amount)) t c.denom = balance s t c.denom := by
+    rw [balance_setBalance]; simp [hft]
+  simp only [h1, require_true, ok_bind, h2, SInt.add, intOverflows_false_of h0 hlt]
+  exact ⟨_, rfl⟩
+
+/-- "Can be paid for": nothing is due, or the sender (not the community-pool account itself) has the
+coin and the pool's balance stays inside 256 bits. -/
+def CanFundPool (s : State) (frm : Addr) (c : Coin) : Prop :=
+  c.amount = 0 ∨ (c.amount ≤ balance s frm c.denom ∧ frm ≠ distrAddr ∧ 0 ≤ balance s distrAddr c.denom + c.amount ∧
+    balance s distrAddr c.denom + c.amount < 115792089237316195423570985008687907853269984665640564039457584007913129639936)
+
+theorem fundCommunityPool_ok_of {s : State} {frm : Addr} {c : Coin} (h : CanFundPool s frm c) :
+    ∃ s', fundCommunityPool s frm c = .ok s' := by
+  unfold fundCommunityPool
+  rcases h with h | ⟨h1, h2, h3, h4⟩
+  · simp only [h, if_true]; exact ⟨_, rfl⟩
+  · split
+    · exact ⟨_, rfl⟩
+    · exact sendCoins_ok_of h1 h2 h3 h4
+
+theorem provRegister_complete (s : State) (frm : TextAddr) (name identity website desc : Bytes) (webok : Bool)
+    (hv : (Msg.provRegister frm name identity website desc webok).validateBasic = .ok ())
+    (hok : ProvRegisterOK s frm.bytes) (hpay : CanFundPool s frm.bytes s.params.provDeposit) :
+    (deliver s (.provRegister frm name identity website desc webok)).2 = .accept := by
+  have hno : hasProvider (clr s) frm.bytes = false := (hasProvider_eq_false_iff _ _).mpr hok
+  obtain ⟨s1, h1⟩ := fundCommunityPool_ok_of (s := clr s) hpay
+  apply accept_of_handle hv
+  simp only [Msg.handle, provRegister, hno, Bool.not_false, require_true, ok_bind, h1, setProvider, pure_bind']
+  exact ⟨_, rfl⟩
+
+theorem nodeRegister_complete (s : State) (frm : TextAddr) (gb hr : Coins) (url : Bytes) (urlok : Bool)
+    (hv : (Msg.nodeRegister frm (some gb) (some hr) url urlok).validateBasic = .ok ())
+    (hok : NodeRegisterOK s frm.bytes gb hr) (hpay : CanFundPool s frm.bytes s.params.nodeDeposit) :
+    (deliver s (.nodeRegister frm (some gb) (some hr) url urlok)).2 = .accept := by
+  obtain ⟨hnone, hg, hh⟩ := hok
+  have hno : hasNode (clr s) frm.bytes = false := (hasNode_eq_false_iff _ _).mpr hnone
+  have hg' : pricesWithin (clr s).params.maxGB (clr s).params.minGB gb = true := (pricesWithin_iff _ _ _).mpr hg
+  have hh' : pricesWithin (clr s).params.maxHr (clr s).params.minHr hr = true := (pricesWithin_iff _ _ _).mpr hh
+  obtain ⟨s1, h1⟩ := fundCommunityPool_ok_of (s := clr s) hpay
+  apply accept_of_handle hv
+  simp only [Msg.handle, nodeRegister, Option.getD_some, hg', hh', hno, Bool.not_false, require_true, ok_bind, h1, setNode, pure_bind']
+  exact ⟨_, rfl⟩
+
+/-! ## Register only once -/
+
+/-- No message deletes a provider record. -/
+theorem provider_persists (s : State) (hk : KeysOK s) (m : Msg) (a : Addr) (h : ∃ p, getProvider s a = some p) :
+    ∃ p, getProvider (deliver s m).1 a = some p := by
+  by_cases hch : getProvider (deliver s m).1 a = getProvider s a
+  · rw [hch]; exact h
+  · obtain ⟨hacc, hkind, hsender⟩ := C07.provider_record_changes_only_by_owner s hk m a hch
+    obtain ⟨_, hh⟩ := deliver_accept hacc
+    cases m <;> simp only [C07.isProvMsg, Bool.false_eq_true] at hkind <;> simp only [Msg.sender] at hsender <;>
+      simp only [Msg.handle] at hh
+    case provRegister =>
+      have := (provRegister_guard hh).1
+      rw [hsender] at this
+      obtain ⟨p, hp⟩ := h
+      rw [show getProvider (clr s) a = getProvider s a from rfl, hp] at this
+      cases this
+    case provUpdate =>
+      have := provUpdate_exists hk.clr hh
+      rw [hsender] at this
+      exact this
+
+/-- No message deletes a node record. -/
+theorem node_persists (s : State) (hk : KeysOK s) (m : Msg) (a : Addr) (h : ∃ n, getNode s a = some n) :
+    ∃ n, getNode (deliver s m).1 a = some n := by
+  by_cases hch : getNode (deliver s m).1 a = getNode s a
+  · rw [hch]; exact h
+  · obtain ⟨hacc, hkind, hsender⟩ := C07.node_record_changes_only_by_owner s hk m a hch
+    obtain ⟨_, hh⟩ := deliver_accept hacc
+    cases m <;> simp only [C07.isNodeMsg, Bool.false_eq_true] at hkind <;> simp only [Msg.sender] at hsender <;>
+      simp only [Msg.handle] at hh
+    case nodeRegister =>
+      have := (nodeRegister_guard hh).2.2.1
+      rw [hsender] at this
+      obtain ⟨p, hp⟩ := h
+      rw [show getNode (clr s) a = getNode s a from rfl, hp] at this
+      cases this
+    case nodeUpdate =>
+      have := nodeUpdate_exists hk.clr hh
+      rw [hsender] at this
+      exact this
+    case nodeStatus =>
+      have := nodeStatus_exists hk.clr hh
+      rw [hsender] at this
+      exact this
+
+theorem provider_persists_all (ms : List Msg) : ∀ (s : State), KeysOK s → ∀ a, (∃ p, getProvider s a = some p) →
+    ∃ p, getProvider (deliverAll s ms) a = some p := by
+  induction ms with
+  | nil => intro s _ a h; exact h
+  | cons m rest ih => intro s hk a h; exact ih _ (KeysOK_deliver s m hk) a (provider_persists s hk m a h)
+
+theorem node_persists_all (ms : List Msg) : ∀ (s : State), KeysOK s → ∀ a, (∃ n, getNode s a = some n) →
+    ∃ n, getNode (deliverAll s ms) a = some n := by
+  induction ms with
+  | nil => intro s _ a h; exact h
+  | cons m rest ih => intro s hk a h; exact ih _ (KeysOK_deliver s m hk) a (node_persists s hk m a h)
+
+/-- **Providers register only once**: after an accepted registration by `a`, a second registration
+by `a` is rejected — immediately and after any further messages (no message deletes the record). -/
+theorem provider_registers_only_once (s : State) (hk : KeysOK s) (frm : TextAddr) (name identity website desc : Bytes) (webok : Bool)
+    (ha : (deliver s (.provRegister frm name identity website desc webok)).2 = .accept) (ms : List Msg)
+    (frm' : TextAddr) (hsame : frm'.bytes = frm.bytes) (name' identity' website' desc' : Bytes) (webok' : Bool) :
+    (deliver (deliverAll (deliver s (.provRegister frm name identity website desc webok)).1 ms)
+      (.provRegister frm' name' identity' website' desc' webok')).2 ≠ .accept := by
+  obtain ⟨_, hh⟩ := deliver_accept ha
+  have h1 := provRegister_exists hh
+  obtain ⟨p, hp⟩ := provider_persists_all ms _ (KeysOK_deliver s _ hk) frm.bytes h1
+  intro hacc
+  have := admission_sound _ (keysOK_deliverAll ms _ (KeysOK_deliver s _ hk)) _ hacc
+  simp only [Admissible, ProvRegisterOK, hsame] at this
+  rw [hp] at this
+  cases this
+
+/-- **Nodes register only once.** -/
+theorem node_registers_only_once (s : State) (hk : KeysOK s) (frm : TextAddr) (gb hr : Option Coins) (url : Bytes) (urlok : Bool)
+    (ha : (deliver s (.nodeRegister frm gb hr url urlok)).2 = .accept) (ms : List Msg)
+    (frm' : TextAddr) (hsame : frm'.bytes = frm.bytes) (gb' hr' : Option Coins) (url' : Bytes) (urlok' : Bool) :
+    (deliver (deliverAll (deliver s (.nodeRegister frm gb hr url urlok)).1 ms)
+      (.nodeRegister frm' gb' hr' url' urlok')).2 ≠ .accept := by
+  obtain ⟨_, hh⟩ := deliver_accept ha
+  have h1 := nodeRegister_exists hh
+  obtain ⟨p, hp⟩ := node_persists_all ms _ (KeysOK_deliver s _ hk) frm.bytes h1
+  intro hacc
+  have := admission_sound _ (keysOK_deliverAll ms _ (KeysOK_deliver s _ hk)) _ hacc
+  simp only [Admissible, NodeRegisterOK, hsame] at this
+  obtain ⟨g, h, _, _, hnone, _⟩ := this
+  rw [hp] at hnone
+  cases hnone
+
+/-- The state-level form: whenever the record exists, registration is rejected. -/
+theorem register_only_once (s : State) (frm : TextAddr) :
+    (∀ name identity website desc webok, (∃ p, getProvider s frm.bytes = some p) →
+      (deliver s (.provRegister frm name identity website desc webok)).2 ≠ .accept) ∧
+    (∀ gb hr url urlok, (∃ n, getNode s frm.bytes = some n) →
+      (deliver s (.nodeRegister frm gb hr url urlok)).2 ≠ .accept) := by
+  constructor
+  · intro name identity website desc webok ⟨p, hp⟩ hacc
+    obtain ⟨_, hh⟩ := deliver_accept hacc
+    have := (provRegister_guard hh).1
+    rw [show getProvider (clr s) frm.bytes = getProvider s frm.bytes from rfl, hp] at this
+    cases this
+  · intro gb hr url urlok ⟨n, hn⟩ hacc
+    obtain ⟨_, hh⟩ := deliver_accept hacc
+    have := (nodeRegister_guard hh).2.2.1
+    rw [show getNode (clr s) frm.bytes = getNode s frm.bytes from rfl, hn] at this
+    cases this
+
+/-! ## Examples on concrete states (non-vacuity) -/
+section Examples
+open C07 (alice bob carol nodeA nodeB acc prov node g0)
+
+/-- alice is a provider with plan 1 (active) linked to node A; nodes A (active) and B (inactive);
+alice leases node A by the hour (subscription 1); bob bought 1 GB on node A (subscription 2) and
+plan 1 (subscription 3). -/
+def msgs : List Msg :=
+  [ .provRegister (acc alice) [65] [] [] [] true,
+    .nodeRegister (acc nodeA) (some [⟨"udvpn", 5⟩]) (some [⟨"udvpn", 3⟩]) [104] true,
+    .nodeRegister (acc nodeB) (some [⟨"udvpn", 5⟩]) (some [⟨"udvpn", 3⟩]) [104] true,
+    .planCreate (prov alice) 1000 1 (some [⟨"udvpn", 10⟩]),
+    .planStatus (prov alice) 1 1,
+    .nodeStatus (node nodeA) 1,
+    .planLink (prov alice) 1 (node nodeA),
+    .planLink (prov alice) 1 (node nodeB),
+    .nodeSubscribe (acc alice) (node nodeA) 0 2 "udvpn",
+    .nodeSubscribe (acc bob) (node nodeA) 1 0 "udvpn",
+    .planSubscribe (acc bob) 1 "udvpn" ]
+
+def s2 : State := deliverAll g0.state msgs
+
+theorem s2_keys : KeysOK s2 := keysOK_deliverAll msgs _ (keysOK_genesis g0)
+
+example : s2.subs.keys = [1, 2, 3] ∧ s2.payForAccNode.keys = [(alice, nodeA, 1)] := by decide +kernel
+
+-- purchases: active node / plan, quantity inside the limits, quoted denomination
+example : (deliver s2 (.nodeSubscribe (acc carol) (node nodeA) 2 0 "udvpn")).2 = .accept := by decide +kernel
+example : (deliver s2 (.nodeSubscribe (acc carol) (node nodeB) 2 0 "udvpn")).2 = .reject "invalid node status" := by decide +kernel
+example : (deliver s2 (.nodeSubscribe (acc carol) (node nodeA) 11 0 "udvpn")).2 = .reject "invalid gigabytes" := by decide +kernel
+example : (deliver s2 (.nodeSubscribe (acc carol) (node nodeA) 2 0 "uatom")).2 = .reject "price not found" := by decide +kernel
+example : (deliver s2 (.nodeSubscribe (acc carol) (node nodeA) 2 2 "udvpn")).2 =
+    .reject "validate: [gigabytes, hours] cannot be non-empty" := by decide +kernel
+example : (deliver s2 (.planSubscribe (acc carol) 1 "udvpn")).2 = .accept := by decide +kernel
+example : (deliver s2 (.planSubscribe (acc carol) 2 "udvpn")).2 = .reject "plan not found" := by decide +kernel
+-- sessions: node subscription on its own node; plan subscription on a linked, leased, active node
+example : (deliver s2 (.sessStart (acc bob) 2 (node nodeA))).2 = .accept := by decide +kernel
+example : (deliver s2 (.sessStart (acc bob) 3 (node nodeA))).2 = .accept := by decide +kernel
+example : (deliver s2 (.sessStart (acc bob) 3 (node nodeB))).2 = .reject "invalid node status" := by decide +kernel
+example : (deliver s2 (.sessStart (acc carol) 3 (node nodeA))).2 = .reject "allocation not found" := by decide +kernel
+-- a second session on the same allocation while the first is active
+example : (deliver (deliver s2 (.sessStart (acc bob) 2 (node nodeA))).1 (.sessStart (acc bob) 2 (node nodeA))).2 =
+    .reject "duplicate active session" := by decide +kernel
+-- registering twice; plans need a provider; links need a node
+example : (deliver s2 (.provRegister (acc alice) [66] [] [] [] true)).2 = .reject "duplicate provider" := by decide +kernel
+example : (deliver s2 (.nodeRegister (acc nodeA) (some [⟨"udvpn", 5⟩]) (some [⟨"udvpn", 3⟩]) [104] true)).2 =
+    .reject "duplicate node" := by decide +kernel
+example : (deliver s2 (.planCreate (prov bob) 1000 1 (some [⟨"udvpn", 10⟩]))).2 = .reject "provider not found" := by decide +kernel
+example : (deliver s2 (.planLink (prov alice) 1 (node carol))).2 = .reject "node not found" := by decide +kernel
+
+/-- The specification predicates are satisfiable: they hold in `s2` (by soundness). -/
+example : SessStartOK s2 bob 3 nodeA := sessStart_sound s2 s2_keys (acc bob) (node nodeA) 3 (by decide +kernel)
+example : NodeSubscribeOK s2 nodeA 2 0 "udvpn" := nodeSubscribe_sound s2 (acc carol) (node nodeA) 2 0 "udvpn" (by decide +kernel)
+example : PlanSubscribeOK s2 1 "udvpn" := planSubscribe_sound s2 (acc carol) 1 "udvpn" (by decide +kernel)
+
+end Examples
 
 end Hub.Props.C08
